@@ -111,7 +111,7 @@ func IntegerArrayEncodeAll(src []int64, b []byte) ([]byte, error) {
 	for i, v := range encoded {
 		binary.BigEndian.PutUint64(b[9+i*8:9+i*8+8], v)
 	}
-	return b, nil
+	return b[:sz], nil
 }
 
 // UnsignedArrayEncodeAll encodes src into b, returning b and any error encountered.
